@@ -48,12 +48,12 @@ for m in sorted(glob.glob('/verif/seeded/*/meta.json')):
     what = x['what'].replace('\n', ' ').replace('|', '/')
     what = what[:150] + ('…' if len(what) > 150 else '')
     r1 = (x.get('check_result') or '').replace('\n', ' ').replace('|', '/')
-    r2 = (x.get('check_result_after_strengthening') or '').replace('\n', ' ').replace('|', '/')
+    r2 = (x.get('check_result_after_strengthening') or x.get('recheck_current_tree') or '').replace('\n', ' ').replace('|', '/')
     res = r1[:140] + (' ⇒ ' + r2[:160] if r2 else '')
     rows.append(f"| {x['id']} | {x.get('property')} | {what} | {res} |")
 sec = f'''### 0.4 Seeded changes (independent agents, property text only) and what the checks say
 
-Twelve batches, {n} changes, each written by a fresh agent that saw only the property text and a scratch worktree; each confirmed by
+Fourteen batches, {n} changes, each written by a fresh agent that saw only the property text and a scratch worktree; each confirmed by
 `tools/seedverify.sh` (builds, the package's existing tests pass with the change, the agent's demonstration fails with it and passes
 without it) and run through the claimed check with `tools/seedcheck.sh` (`VERIF_REPO=<scratch worktree>`). "⇒" marks a change the
 check missed or could only report as no-failing-input-found on the first run, and what the strengthened check says now.
@@ -67,6 +67,15 @@ reviewer then enumerated over the whole anchored code (`reviews/r-gaps-report.md
 (TerminateSession / AssignAddress / allocateLocal / cleanupExpiredLeases windows), stored or returned pointers (state.Store),
 and installs that fail half-way (QoS egress/ingress). The review's candidates that reproduced on the real code became fixes
 (9d53e2c AssignAddress, e054093 IPCP ack without address) or known findings (KF-store-alias ...); see §0.3.
+Session 5 re-ran the eleven changes still marked missed from batches 10-12 against the current tree (all caught now; C02g only as a
+broken lock-discipline obligation, `Spec.C02Locks.sweep_teardown_inside_lease_lock`, with `no-failing-input-found`) and added
+batches 13-14 (20 changes): 13 caught at intake; C02h (DISCOVER with option 50 against an expired, unswept lease), C08h (session
+ids that are prefixes of one another), C16h (failing eBPF callback in SessionTeardown), C18g / C06g (allowed range given with a
+16-byte-form IPv4 address) and C17g (peer ids that are prefixes of one another) were missed and went to the builders of their
+components (dhcp4 option-50 DISCOVER op, adversarial concrete session ids in the acct harnesses, `fault ebpf` in teardown,
+`range16` in antispoof, prefix-related node ids in the cluster generators); C19g stopped applying when fix 01bf152 rewrote the
+function it changes. The remaining review candidates (r-gaps G7 G8 C1 C5 C7 C9 B1-B3 B8 B9 A1-A4) were driven by new fault /
+alias / park ops and became `fix:` commits or known findings (§0.3).
 (Regenerate this table and §0.3 with `tools/mkdesign.py`.)
 
 | Seeded | Property | Change | Result |
